@@ -457,3 +457,24 @@ fn does_not_need_necessary_separate_impl() {
         }
     }
 }
+
+#[test]
+fn records_auto_trait_impl_for_other_instantiation() {
+    // `impl Send for Foo<u32>` suppresses the default auto impl for `Foo<i32>`
+    // as well, although it does not match the goal; it must still be recorded.
+    logging_db_output_sufficient! {
+        program {
+            #[auto] trait Send {}
+
+            struct Foo<T> {}
+
+            impl Send for Foo<u32> {}
+        }
+
+        goal {
+            Foo<i32>: Send
+        } yields {
+            "No possible solution"
+        }
+    }
+}
